@@ -131,10 +131,14 @@ fn pass0_internal(
                     }
                     let segments = macro_expand(line, macro_name, ops, context, macroses)?;
                     if !segments.is_empty() {
-                        let current_segment = context.last_segment().unwrap().borrow().clone();
-                        if segments[0].address != current_segment.address
-                            || segments[0].t != current_segment.t
-                        {
+                        // only the position of the current segment is needed: copying the segment
+                        // with all its items at every call made pass 0 quadratic in the program size
+                        let (current_address, current_t) = {
+                            let current = context.last_segment().unwrap();
+                            let current = current.borrow();
+                            (current.address, current.t)
+                        };
+                        if segments[0].address != current_address || segments[0].t != current_t {
                             context.add_segment(Segment {
                                 address: segments[0].address,
                                 t: segments[0].t,
